@@ -35,6 +35,7 @@ fn families() -> Vec<(&'static str, fn(&mut Rng, usize) -> Case)> {
         ("pipe.comb", fam_pipe::gen_comb),
         ("pipe.summ", fam_pipe::gen_summ),
         ("pipe.verdict", fam_pipe::gen_verdict),
+        ("exit.run", fam_pipe::gen_exit),
         ("attempt.run", fam_attempt::gen_attempts),
         ("sched.run", fam_sched::gen_sched_case),
         ("sched.lazy", fam_sched::gen_sched_lazy_case),
